@@ -59,6 +59,24 @@ pub fn emit(e: &mut Emitter, seed: u64, thorough: bool) {
             }
             e.count("wide-row gadget case");
         }
+        // narrow rows: more exponent bits than one ExponentiationGate holds (num_routed_wires - 2): the
+        // gadget has to split the exponent (F-C01-4: the surplus bit used to land on the gate's output wire)
+        for routed in [30usize, 40, 65] {
+            let mut config = CircuitConfig::standard_recursion_config();
+            config.num_routed_wires = routed;
+            let nbits = *r.pick(&[45usize, 63, routed - 1, routed]);
+            let exp = ((1u64 << (nbits - 1)) | (r.next() >> (65 - nbits))) & (u64::MAX >> 1);
+            let prog = Prog { ops: vec![Op::Input(exp), Op::ExpConstBase(r.below(P), 0, nbits), Op::Public(1)], tables: vec![], skip_connect: false };
+            let (_, expected) = prog.eval();
+            let what = format!("exp_from_bits_const_base with {nbits} exponent bits, {routed} routed wires");
+            e.stage(&format!("impl: building+proving {what}"));
+            match std::panic::catch_unwind(std::panic::AssertUnwindSafe(|| { let (d, pw) = prog.build(config.clone()); let p = d.prove(pw)?; d.verify(p.clone())?; anyhow::Ok(p) })) {
+                Ok(Ok(p)) => if p.public_inputs != expected { e.oracle_failures.push(format!("public inputs differ from direct evaluation (the circuit computes the wrong power); {what}")); },
+                Ok(Err(er)) => e.oracle_failures.push(format!("prove/verify failed on a satisfiable circuit: {er:#}; {what}")),
+                Err(_) => e.oracle_failures.push(format!("building a circuit for an ordinary gadget call panicked; {what}")),
+            }
+            e.count("narrow-row gadget case");
+        }
     }
     let n_sched = if thorough { schedules.len() } else { 5 };
     let first = r.below(schedules.len() as u64) as usize;
